@@ -212,10 +212,168 @@ Qed.
 
 Lemma parse_body_good c data : goodP (wf_bytes data) (N.of_nat (length data) + 65535) (parse_body c data).
 Proof.
-  destruct c; cbn [parse_body];
-    try (apply goodP_of_good; eapply good_le;
-         [first [apply parse_sa_good | apply parse_ke_good | apply parse_id_good | apply parse_auth_good
-                | apply new_nonce_good | apply new_vendor_good | apply parse_notify_good | apply parse_ts_good
-                | apply good_ret] | lia]).
-  eapply goodP_le; [apply parse_delete_good | lia].
+  destruct c; cbn [parse_body].
+  - apply goodP_of_good; eapply good_le; [apply parse_sa_good | lia].
+  - apply goodP_of_good; eapply good_le; [apply parse_ke_good | lia].
+  - apply goodP_of_good; eapply good_le; [apply parse_id_good | lia].
+  - apply goodP_of_good; eapply good_le; [apply parse_id_good | lia].
+  - apply goodP_of_good; eapply good_le; [apply parse_auth_good | lia].
+  - apply goodP_of_good; eapply good_le; [apply new_nonce_good | lia].
+  - apply goodP_of_good; eapply good_le; [apply new_vendor_good | lia].
+  - apply goodP_of_good; eapply good_le; [apply parse_notify_good | lia].
+  - apply goodP_of_good; eapply good_le; [apply parse_ts_good | lia].
+  - apply goodP_of_good; eapply good_le; [apply parse_ts_good | lia].
+  - apply goodP_of_good, good_ret.
+  - eapply goodP_le; [apply parse_delete_good | lia].
 Qed.
+
+Definition chain_bound (data : bytes) (off : nat) : N :=
+  if (off <=? length data)%nat then 16385 * N.of_nat (length data - off) + 1 else 1.
+
+Lemma payloads_loop_good fuel data off pt :
+  (1 <= fuel)%nat -> ((off <= length data)%nat -> (length data + 2 <= fuel + off)%nat) ->
+  goodP (wf_bytes data) (chain_bound data off) (payloads_loop fuel data off pt).
+Proof.
+  revert off pt. induction fuel as [|f IH]; intros off pt Hf1 Hf2; [lia|].
+  cbn [payloads_loop]. destruct (negb (N.eqb pt Payload_Type_NONE)).
+  2:{ apply goodP_of_good. destruct (negb _); [apply good_raise_is | apply good_ret]. }
+  apply goodP_tick_le with (b := (chain_bound data off - 1)%N); [| unfold chain_bound; intros; split_ifs; lia].
+  unpack_step. destruct (off + _ <=? length data)%nat eqn:Hsz; [| apply goodP_of_good, good_raise_is].
+  cbn [fmt_size] in Hsz.
+  set (len := be_decode (firstn 2 _)).
+  destruct (payload_length_bad len) eqn:Hlen; [apply goodP_of_good, good_raise_is|].
+  unfold payload_length_bad in Hlen.
+  set (sl := slice data (off + 4) (off + N.to_nat len)).
+  pose proof (slice_len_le data (off + 4) (off + N.to_nat len)) as Hs1.
+  pose proof (slice_len_le2 data (off + 4) (off + N.to_nat len)) as Hs2.
+  fold sl in Hs1, Hs2.
+  assert (Hrec : forall pt', goodP (wf_bytes data) (chain_bound data (off + N.to_nat len))
+                                   (payloads_loop f data (off + N.to_nat len) pt')).
+  { intros pt'. apply IH; lia. }
+  assert (Hbound : (N.of_nat (length sl) + 65535 + chain_bound data (off + N.to_nat len)
+                    <= chain_bound data off - 1)%N).
+  { unfold chain_bound. split_ifs; lia. }
+  unfold parse_one. destruct (lookup pt type_2_payload) as [cls|].
+  - pose proof (parse_body_good cls sl) as Hb.
+    destruct Hb as [Hsafe Hticks].
+    assert (Hb : goodP (wf_bytes data) (N.of_nat (length sl) + 65535) (parse_body cls sl)).
+    { split; [exact Hsafe | intros Hwf; apply Hticks, wf_slice, Hwf]. }
+    destruct (fst (parse_body cls sl)) as [b|e|] eqn:Eb; [| destruct e; try destruct Hsafe |destruct Hsafe].
+    + apply goodP_bind_le with (a := (N.of_nat (length sl) + 65535)%N) (b := chain_bound data (off + N.to_nat len));
+        [exact Hb | | intros; exact Hbound].
+      intros x _. apply goodP_bind_ret. apply Hrec.
+    + apply goodP_bind_le with (a := (N.of_nat (length sl) + 65535)%N) (b := chain_bound data (off + N.to_nat len));
+        [exact Hb | rewrite Eb; discriminate | intros; exact Hbound].
+    + apply goodP_bind_le with (a := (N.of_nat (length sl) + 65535)%N) (b := chain_bound data (off + N.to_nat len));
+        [exact Hb | rewrite Eb; discriminate | intros; exact Hbound].
+  - cbn [raise fst snd].
+    apply goodP_bind_le with (a := 0%N) (b := chain_bound data (off + N.to_nat len)).
+    + split; cbn; [exact I | lia].
+    + intros _ _. destruct (payload_critical_of _); [apply goodP_of_good, good_raise_ucp | apply Hrec].
+    + intros; lia.
+Qed.
+
+Lemma parse_payloads_good data first :
+  goodP (wf_bytes data) (16385 * N.of_nat (length data) + 1) (parse_payloads data first).
+Proof.
+  unfold parse_payloads. eapply goodP_le; [apply payloads_loop_good; lia|].
+  unfold chain_bound. cbn. rewrite Nat.sub_0_r. lia.
+Qed.
+
+(** every SK payload returned by the chain parser carries a slice of the parsed data *)
+Definition sk_within (data : bytes) (p : payload) : Prop :=
+  match pl_body p with
+  | B_SK c _ => (length c <= length data)%nat /\ (wf_bytes data -> wf_bytes c)
+  | _ => True
+  end.
+
+Lemma parse_body_sk_within cls data b : fst (parse_body cls data) = Ok b ->
+  match b with B_SK c _ => c = data | _ => True end.
+Proof.
+  destruct cls; cbn [parse_body]; intros H.
+  - unfold parse_sa in H. rewrite fst_bind in H. destruct (fst (proposals_loop _ _ _)); try discriminate.
+    unfold new_sa in H. destruct (_ =? _)%nat; inversion H; exact I.
+  - unfold parse_ke in H. revert H. unpack_step. destruct (_ <=? _)%nat; intros H; inversion H; exact I.
+  - unfold parse_id in H. revert H. unpack_step. destruct (_ <=? _)%nat; intros H; inversion H; exact I.
+  - unfold parse_id in H. revert H. unpack_step. destruct (_ <=? _)%nat; intros H; inversion H; exact I.
+  - unfold parse_auth in H. revert H. unpack_step. destruct (_ <=? _)%nat; intros H; inversion H; exact I.
+  - unfold new_nonce in H. destruct (nonce_length_bad _); inversion H; exact I.
+  - unfold new_vendor in H. destruct (_ =? _)%nat; inversion H; exact I.
+  - unfold parse_notify in H. revert H. unpack_step. destruct (_ <=? _)%nat; intros H; inversion H; exact I.
+  - unfold parse_ts in H. revert H. unpack_step. destruct (_ <=? _)%nat; [| intros H; inversion H].
+    rewrite fst_bind. destruct (fst (tsels_loop _ _ _)); try discriminate.
+    destruct (negb _); intros H; inversion H; exact I.
+  - unfold parse_ts in H. revert H. unpack_step. destruct (_ <=? _)%nat; [| intros H; inversion H].
+    rewrite fst_bind. destruct (fst (tsels_loop _ _ _)); try discriminate.
+    destruct (negb _); intros H; inversion H; exact I.
+  - inversion H. reflexivity.
+  - unfold parse_delete in H. revert H. unpack_step. destruct (_ <=? _)%nat; [| intros H; inversion H].
+    rewrite fst_bind. destruct (fst (delete_spis _ _ _ _)); try discriminate.
+    intros H; inversion H; exact I.
+Qed.
+
+Lemma payloads_loop_sk_within fuel data off pt ps :
+  fst (payloads_loop fuel data off pt) = Ok ps -> Forall (sk_within data) ps.
+Proof.
+  revert off pt ps. induction fuel as [|f IH]; intros off pt ps; [discriminate|].
+  cbn [payloads_loop]. destruct (negb (N.eqb pt Payload_Type_NONE)).
+  2:{ destruct (negb _); intros H; inversion H. constructor. }
+  rewrite fst_bind. cbn [tick fst]. unpack_step. destruct (off + _ <=? length data)%nat; [| discriminate].
+  set (len := be_decode (firstn 2 _)).
+  destruct (payload_length_bad len); [discriminate|].
+  set (sl := slice data (off + 4) (off + N.to_nat len)).
+  unfold parse_one. destruct (lookup pt type_2_payload) as [cls|].
+  - pose proof (parse_body_sk_within cls sl) as Hsk.
+    assert (Hk : fst (parse_body cls sl) <> Raise KeyError).
+    { pose proof (parse_body_good cls sl) as [Hs _]. intros E; rewrite E in Hs; exact Hs. }
+    destruct (fst (parse_body cls sl)) as [b|e|] eqn:Eb.
+    + rewrite fst_bind, Eb, fst_bind.
+      destruct (fst (payloads_loop f data _ _)) as [rest| |] eqn:Er; try discriminate.
+      cbn [ret fst]. intros H; inversion H; subst. constructor; [| eapply IH; exact Er].
+      specialize (Hsk b eq_refl). unfold sk_within. cbn [pl_body].
+      assert (Hsl : (length sl <= length data)%nat /\ (wf_bytes data -> wf_bytes sl)).
+      { split; [unfold sl; rewrite slice_length; lia | intros; apply wf_slice; assumption]. }
+      destruct b as [| | | | | | | | |ct nx]; try (destruct (N.eqb pt Payload_Type_SK); exact I).
+      subst ct; destruct (N.eqb pt Payload_Type_SK); cbn [set_next]; exact Hsl.
+    + destruct e; try (rewrite fst_bind, Eb; discriminate). congruence.
+    + rewrite fst_bind, Eb; discriminate.
+  - cbn [raise fst snd]. rewrite fst_bind. cbn [fst].
+    destruct (payload_critical_of _); [discriminate|]. apply IH.
+Qed.
+
+Lemma split_last_in {A} (l init : list A) (x : A) : split_last l = Some (init, x) -> In x l.
+Proof.
+  unfold split_last. destruct (rev l) as [|y r] eqn:E; [discriminate|]. intros H; inversion H; subst.
+  apply in_rev. rewrite E. left; reflexivity.
+Qed.
+
+Lemma pl_type_sk_body p : N.eqb (pl_type p) Payload_Type_SK = true -> exists c n, pl_body p = B_SK c n.
+Proof.
+  unfold pl_type. destruct (pl_body p) as [| | i ? ?| | | | | | i ?|c n]; try destruct i; cbn; try discriminate.
+  intros _. eauto.
+Qed.
+
+Section Decode.
+  Variable dec : bytes -> bytes -> bytes -> bytes.
+  Variable mac : bytes -> bytes -> bytes.
+  (** the one contract of cipher.decrypt the parser relies on: a non-empty ciphertext does not decrypt to nothing *)
+  Hypothesis dec_nonempty : forall k iv c, c <> [] -> dec k iv c <> [].
+
+  (** additionally, for the iteration bound: decrypting does not lengthen the data and yields octets *)
+  Definition dec_sane : Prop :=
+    (forall k iv c, (length (dec k iv c) <= length c)%nat) /\ (forall k iv c, wf_bytes c -> wf_bytes (dec k iv c)).
+
+  Lemma sk_decrypt_good cr ct : (0 < c_bs cr)%nat -> good 0 (sk_decrypt dec cr ct).
+  Proof.
+    intros Hbs. unfold sk_decrypt.
+    destruct (_ || _) eqn:E1; [apply good_raise_is|].
+    destruct (c_bs cr =? 0)%nat eqn:E2; [apply Nat.eqb_eq in E2; lia|].
+    destruct (negb _) eqn:E3; [apply good_raise_is|].
+    set (ctx := slice_to_neg _ _) in *.
+    assert (Hne : ctx <> []).
+    { rewrite Bool.orb_false_iff in E1. destruct E1 as [_ E1]. intros Hc. rewrite Hc in E1. discriminate. }
+    specialize (dec_nonempty (c_sk_e cr) (firstn (c_bs cr) ct) ctx Hne).
+    destruct (rev (dec _ _ ctx)) as [|padlen r] eqn:Er.
+    { exfalso. apply dec_nonempty. apply (f_equal (@rev N)) in Er. rewrite rev_involutive in Er. exact Er. }
+    destruct (_ <? _)%N; [apply good_raise_is | apply good_ret].
+  Qed.
